@@ -65,6 +65,10 @@ def check_doc(ctx: Ctx, name, nodes):
 
 def run(ctx: Ctx):
     ctx.level = 'other'
+    ctx.bounded = getattr(ctx, 'bounded', []) + [{
+        'function': 'dznpy.json_ast.DznJsonAst.process (corpus part)',
+        'bound': 'document STRUCTURE: the 5 documents of specs/docs.py; every name / value / number symbolic',
+        'result': 'obligations <document>:path*; the unbounded contracts (json_ast.* obligations) carry no such bound'}]
     ctx.level_explanation = ('Parser harness: every obligation is proved for ALL leaf contents (names, values, numbers) of one document STRUCTURE; the structures are the enumerated document corpus and its single-point malformations (bound stated under assumptions): bounded in structure, unbounded in content.')
     ctx.trusted += ['orjson.loads (the JSON text -> python value step is outside the contract)',
                     'z3 theory of strings']
